@@ -32,13 +32,17 @@ RULE = ("probability vectors: 8 dyadic classes (uniform, one dominant, many zero
         "SamplingMethod and 2-d independent/dependent copula chains (centred and non-centred grids) through MarkovChainLevyCopula; "
         "2-d table-copula chains with arbitrary dyadic cell masses, Clayton and 3-d chains for the oracle; vectors whose sum is off 1; "
         "inversion histories of 1..200 draws in 5 orders with _max_storage in {1,2,3,5,..,default}, batch sample() with lowered storage; "
-        "32-bit words for TABLE incl. alias thresholds. non-trivial = distinct (sampler, vector/chain, uniform) with >= 3 states")
+        "32-bit words for TABLE incl. alias thresholds; exhaustion path of INVERSION: InversionMethod built directly on dyadic probability "
+        "tables whose sum is 1 - 2^-k (k = 52, 40, 12, 4) or 1, uniforms 1 - 2^-53, 1 - 2^-52, random in (sum, 1), 1, 1.25 with EVERY position of "
+        "the frontier deque scripted into np.random.choice, and factory chains with intensity 3, 5, 7 (rounded probabilities); every "
+        "direct sampler is built from ONE float64 ndarray that must stay bit-identical. non-trivial = distinct (sampler, vector/chain, uniform) with >= 3 states")
 MODELLED = [
     "numpy arrays / collections.deque / Python lists as Coq lists (alias deques right-to-left); np.uint(ku) as floor; int(x) as truncation; np.cumsum as a running sum; np.searchsorted(side=left) on a non-decreasing array as the number of leading entries < v",
     "list.sort(key, reverse=True) as a stable decreasing insertion sort; bisect.bisect_left by its binary-search loop",
     "hidden state: Sampling.sampling_cost counters (write-only) and the lru caches of BinarySearchTreeAdapted1D / BinarySearchTreeAdapted._compute_probability (read caches) are threaded explicitly in Model/Stateful.v (any eviction policy that only drops entries) and proved not to influence the output; functools.cache of PairingToZ1d.project is modelled as the identity on a pure function",
     "TableMethod: table_draw_word is _sample_one as written (one 32-bit word gives the slot byte and the alias uniform); C02_table_law is the idealised product law, C02_table_draw_law the exact count over the 2^32 words",
     "BinarySearchTreeAdapted (n-d): Model/BstAdaptedNd.v (buckets = itertools.product of the per-axis pieces, cached axis vectors, flattened `while any: for k` loop) over an abstract box mass; tied exactly on 2-d table-copula chains (harness/stepmeasure.py Table2: arbitrary dyadic cell masses), wider chains (Clayton, 3-d) by the oracle",
+    "InversionMethod exhaustion path (wave 5): Model/InversionFrontier.v resolves the symbol Frontier of Model/Inversion.v: StatesManager._sample_frontier_state_increment = project(frontier_states_indices[c]) with the position c picked by np.random.choice as an EXPLICIT input (consumed only on exhaustion); the 1-d deque and max_frontier_indices are Model/Domain.v's dom_1d / dom_maxf (C14) on z1d_pair of Gen/GenPairing.v and are compared with the implementation's on every inversion case; np.random.choice(deque) is modelled as indexing the deque (the harness replaces it by a scripted position; its own distribution over positions -- uniform -- is numpy's, not verified)",
     "InversionMethod: Model/Inversion.v over an abstract enumeration; 1-d: z1d_project (C14) with the implementation's max_frontier_indices fed as data and inside = in the grid; 2-d: zd2_project szudzik, inside = in the box, probability table as data",
     "the factory: create_vec_jump_matrix and the `states` map in Model/Factory.v (tied exactly)",
     "float arithmetic: theorems are over Q with exact-sum hypotheses (sum p = 1, u < sum p) that float vectors meet only up to rounding (e.g. sums 0.9999999999999998); exact agreement is checked on dyadic inputs where every float operation of the samplers is exact, incl. vectors whose sum is deliberately off 1; non-dyadic vectors and intensities by the oracle with tolerance 1e-9",
@@ -46,7 +50,8 @@ MODELLED = [
 ]
 ASSUMPTIONS = [
     "probability vector entries are >= 0 (zeros and ties allowed), length >= 1; uniforms 0 <= u < sum p (alias, table: sum p = 1)",
-    "C02_inversion_admissible: unconditional in the enumeration (any inadmissible indices, any number of restarts; StatesManager half = C14 sm_step_protocol on the tree repaired by a073fcb); prob >= 0 (the factory clips with max(.,0)), _max_storage >= 1, F >= 0. The random frontier state drawn on exhaustion (u above the sum) is modelled as the symbol Frontier; with a custom Domain/RectangleBoundary that draw can return the origin (audit D13) -- not reachable through the factory, which hard-codes Boundary()",
+    "C02_inversion_admissible: unconditional in the enumeration (any inadmissible indices, any number of restarts; StatesManager half = C14 sm_step_protocol on the tree repaired by a073fcb); prob >= 0 (the factory clips with max(.,0)), _max_storage >= 1, F >= 0. In C02_inversion_admissible the random frontier state drawn on exhaustion (u above the sum) is the symbol Frontier; C02_inversion_frontier_law resolves it",
+    "C02_inversion_frontier_law: same hypotheses, ANY deque fr and any position c; part (3) needs sigma <= 1 (sum of the admissible probabilities: 1 in exact arithmetic, below 1 after rounding); part (5) needs every index of the deque admissible -- proved for the 1-d factory grid (C02_inversion_frontier_1d, 0 < L, 0 < R); for n-d grids / a custom Domain (RectangleBoundary: the deque can hold the index of the origin, audit D13) it is NOT proved -- the factory hard-codes Boundary(); the n-d deque of dom_nd is not tied to the theorem (2-d/3-d: oracle accepts any state of the deque)",
     "C02_bstadapted1d_law: mass additive and non-negative on ordered intervals (closed forms: C09), cell boundaries ordered (C13), left-tail mass = mass of the left axis cells (truncation, C01), lambda > 0, a point on each side of the origin; C02_bstadapted1d_cache_history_free: mass is a function of the values of its arguments, eviction only drops entries",
     "C02_bstadaptednd_*: the box mass bm is non-negative and additive under the split of one axis (C12 for the copula rectangle mass), coordinates in [0, B)",
     "right-closed samplers (INVERSION, BSTADAPTED 1-d/n-d): 'never a zero-probability state' is proved for u > 0 only; u = 0 is the recorded finding F-C02-6 (C02_*_zero_uniform_refuted)",
@@ -65,28 +70,39 @@ THEOREM_NOTES = {
     "C02_bstadapted1d_cache_history_free / C02_bstadaptednd_cache_history_free": "READ caches (a hit replaces the evaluation of the mass): 1-d keyed by the float arguments, n-d keyed by the box; any eviction policy that only drops entries; soundness of the cache is relative to the instance's own mass (a cache shared between instances breaks it)",
     "C02_bstadaptednd_bucket_law": "full for sample_one_bucket: termination with the model's fuel by the potential (d+1)(sum(hi-lo) - [axis >= k moves]) + (d-k); right-closed step function; every cell of the bucket exactly once with length bm(cell)",
     "C02_bstadaptednd_law": "full on the REAL bucket list buckets d n o of _pre_computation: cached-axis branch (searchsorted (axis_cum b) = locate_r (axis_segs b), with the min(., len-1) repair) and bisection branch composed with the bucket stage; product buckets partition the non-origin cells (buckets_partition): every non-origin cell exactly once with length bm(cell), never the origin, never outside the grid. Example C02_bstadaptednd_nonvacuous: buckets 2 5 2 has 8 buckets, 4 of them cached",
+    "C02_inversion_frontier_law": "full (wave 5): every enumeration, deque, _max_storage >= 1, reachable state (any history), u, c: output = admissible state of locate_r, or project(fr[c]) iff u > sigma (np.random.choice consumed iff u > sigma; never for u <= 1 when sigma == 1); for sigma <= 1 and each c the sampler is the right-closed step function of adm_segs' ++ [(1 - sigma, fr[c])] (total 1) on (0,1]; summed over the positions c the index i gets len(fr) * p_i + (1 - sigma) * multiplicity of i in the deque (uniformity of np.random.choice over positions is numpy's, outside the model); admissible deque => admissible output",
+    "C02_inversion_frontier_1d": "full: for the factory's 1-d grid (0 < L, 0 < R) the deque dom_1d is [pair R; pair(-L)], both admissible indices <= max_frontier_indices, the frontier states are the two end points: in the grid, never the origin (uses C14 z1d_pair_spec)",
+    "C02_inversion_frontier_zero_prob_refuted": "F-C02-13 on the faithful model: probabilities summing to 1 - 2^-52 with p(-3) = 0, u = 1 - 2^-53, position 1 -> state -3 (vm_compute witness); on the implementation the deficit comes from rounding rate/intensity (intensity 7)",
     "C02_inversion_zero_uniform_refuted / C02_bstadapted1d_zero_uniform_refuted": "vm_compute witnesses of F-C02-6 on the faithful models",
     "C02_inversion_overflow_orig / C02_inversion_overflow_repaired": "Examples: the historical witness of F-C02-7 = F-C14-6 on the ORIGINAL model (Model/InversionOrig.v) and the same instance on the repaired model (answers state 3 with storage 1, 2, 10^6)",
 }
-LEVEL_TEXT = ("Proof: 17 positive Coq theorems (closed under the global context, no axioms) state, for ALL probability vectors of any length "
+LEVEL_TEXT = ("Proof: 19 positive Coq theorems (closed under the global context, no axioms) state, for ALL probability vectors of any length "
               ">= 1 with zeros and ties, that BinarySearchTree, HuffmanTree, AliasMethod and TableMethod are step functions of the uniform "
               "whose intervals labelled k have total length exactly p_k (constructors total, indices in range, zero-probability states and, "
               "through the factory's vector and states map, the origin never returned); TableMethod also as the code consumes ONE 32-bit "
               "word (exact count over the 2^32 words within 512 K of 2^32 p_k); that InversionMethod+StatesManager (repaired restart), for "
               "EVERY enumeration with inadmissible indices and every _max_storage >= 1, returns in every reachable state (any draw history, "
-              "any number of restarts) the state of the right-closed step function over the admissible states; BinarySearchTreeAdapted1D is "
+              "any number of restarts) the state of the right-closed step function over the admissible states, and INCLUDING the exhaustion path with the frontier draw inside the "
+              "model (np.random.choice = an explicit position c of the deque): the draw is taken iff u exceeds the sum sigma of the admissible "
+              "probabilities (never for u <= 1 in exact arithmetic), for sigma <= 1 the sampler is the step function with one more interval "
+              "(sigma, 1] labelled frontier[c], the deficit 1 - sigma goes to the frontier indices in proportion to their multiplicity, and on the "
+              "factory's 1-d grid the frontier states are the two end points (in the grid, never the origin); BinarySearchTreeAdapted1D is "
               "the right-closed step function of the cell masses for any additive mass; the n-d BinarySearchTreeAdapted on the real bucket "
               "list of _pre_computation (cached axis vectors and axis-cycling bisection, which terminates) gives every non-origin cell of "
               "the grid exactly bm(cell), never the origin. History: the 1-d and n-d lru caches are proved to be harmless READ caches for any "
               "eviction policy; C02_history_free_table_driven is only about a write-only state (cost counters) and detects nothing by itself. "
-              "2 theorems are refutation witnesses of the recorded finding F-C02-6 (u = 0.0 in the right-closed samplers); F-C02-7 is fixed "
+              "2 theorems are refutation witnesses of the recorded finding F-C02-6 (u = 0.0 in the right-closed samplers), 1 of F-C02-13 (a uniform in "
+              "(float sum, 1) is sent by the frontier draw to an end point of probability zero); F-C02-7 is fixed "
               "(historical witness kept as an Example on the original model). The hand-written executable models are tied to /repo on every "
               "run by a vm_compute correspondence (~45k draws at all break points: direct constructors, every SamplingMethod through "
               "MarkovChainProcess on centred and non-centred grids, the n-d tree on table-copula, independent and dependent copula chains in "
               "2-d and 3-d, 32-bit words for TABLE, cost counters, the factory vector, inversion histories incl. the exhaustion path with "
-              "uniforms above the sum) plus an implementation-only oracle (exact integration of u -> state, exact word law of TABLE, batch "
-              "vs single uniform with lowered storage, same array twice, two orders, float sums below 1). Float rounding for non-dyadic "
-              "inputs is outside the theorems; the random frontier state drawn on exhaustion is modelled as a symbol.")
+              "uniforms above the sum and every scripted position of np.random.choice, the frontier deque and max_frontier_indices against "
+              "Model/Domain.v, InversionMethod built directly on tables whose sum is 1 - 2^-k with u = 1 - 2^-53) plus an implementation-only oracle (exact integration of u -> state, exact word law of TABLE, batch "
+              "vs single uniform with lowered storage, same array twice, two orders, float sums below 1 with the frontier choice scripted, every direct sampler "
+              "built from ONE float64 ndarray that must stay bit-identical through constructors and draws). Float rounding for non-dyadic "
+              "inputs is outside the theorems (the frontier theorem takes the rounded sum sigma as a parameter); the distribution of "
+              "np.random.choice over the positions of the deque is numpy's and is not modelled; n-d frontier deques are not tied to the theorem.")
 LEVEL_NOTE = ("Trusted: Coq kernel + vm_compute; hand-written models (lists for arrays/deques, floor for np.uint, stable insertion sort for "
               "list.sort, bisect_left loop, cumsum/searchsorted on sorted arrays) tied by exact comparison on dyadic inputs; Q arithmetic "
               "stands for float arithmetic (exact on the dyadic inputs compared; non-dyadic inputs only by the oracle with tolerance 1e-9); "
@@ -389,6 +405,31 @@ def _two_orders(rng, viol, name, p, outs, f, fresh):
             return
 
 
+class InputGuard:
+    """ONE float64 ndarray object is handed to every sampler constructor (and stays the expected law): no constructor and no
+    draw may overwrite it.  check() compares it bit for bit with a private copy taken first, reports a violation naming
+    the stage, and hands a fresh copy to the following samplers so that they are still built from the intended vector."""
+
+    def __init__(self, values, viol, res):
+        self.arr = np.array(values, dtype=np.float64)
+        self.ref = self.arr.copy()
+        self.viol, self.res = viol, res
+
+    def check(self, sampler, stage):
+        self.res.bump("input_array_guard", f"{sampler} {stage}")
+        a, r = self.arr, self.ref
+        if a.dtype != r.dtype or a.shape != r.shape or a.tobytes() != r.tobytes():
+            k = next((j for j in range(min(a.size, r.size)) if a.flat[j].tobytes() != r.flat[j].tobytes()), 0)
+            self.viol(f"{sampler}: the {stage} overwrites the caller's float64 probability array (it is re-used for the next sampler and as the expected law)",
+                      sampler=sampler, stage=stage, input_array_mutated=True, p=[repr(float(x)) for x in r], first_changed_index=int(k),
+                      before=repr(float(r.flat[k])), after=repr(float(a.flat[k])) if a.size > k else None)
+            # a fresh array object for the next sampler: the sampler that (wrongly) kept a reference to the caller's array is left
+            # with what it wrote, so that this report is not followed by a cascade of consequences
+            self.arr = self.ref.copy()
+            return False
+        return True
+
+
 def direct_samplers(res, rng, groups, viol):
     from rpylib.distribution.variate.alias import AliasMethod
     from rpylib.distribution.variate.binarysearchtree import BinarySearchTree
@@ -404,6 +445,7 @@ def direct_samplers(res, rng, groups, viol):
         K = len(p)
         pf = [float(x) for x in p]
         assert all(Fr(x) == y for x, y in zip(pf, p))
+        guard = InputGuard(pf, viol, res)          # the SAME ndarray object for every constructor below
         res.bump("vector_class", cls)
         res.bump("vector_length", "1" if K == 1 else "2" if K == 2 else "3-9" if K < 10 else "10-99" if K < 100 else "100-400")
         res.bump("vector_has_zero", any(x == 0 for x in p))
@@ -413,7 +455,8 @@ def direct_samplers(res, rng, groups, viol):
 
         # ---- ALIAS
         try:
-            a = AliasMethod(pf, ident)
+            a = AliasMethod(guard.arr, ident)
+            guard.check("alias", "constructor")
             J = [int(v) for v in a.J]
             q = [Fr(float(v)) for v in a.q]
             br = []
@@ -446,7 +489,8 @@ def direct_samplers(res, rng, groups, viol):
                 res.bump("alias_branch", "alias" if o != int(K * u) else "column")
                 if not (0 <= o < K) or (p[o] == 0 and is_prob):
                     viol("AliasMethod returns a zero-probability or out-of-range state", sampler="alias", p=[str(x) for x in p], u=u, got=o)
-            _two_orders(rng, viol, "alias", p, outs, lambda u: int(a._draw_with_u(u)), lambda: (lambda a2: (lambda u: int(a2._draw_with_u(u))))(AliasMethod(pf, ident)))
+            _two_orders(rng, viol, "alias", p, outs, lambda u: int(a._draw_with_u(u)), lambda: (lambda a2: (lambda u: int(a2._draw_with_u(u))))(AliasMethod(guard.arr, ident)))
+            guard.check("alias", "draws (_draw_with_u, second instance)")
             g_alias.append(f"({pl}, ({lst([zlit(v) for v in J])}, {lst([qlit(v) for v in q])}), {_qpairs(outs)})")
             if small:
                 oracle_jobs.append(("alias", cls, p, lambda u, a=a: int(a._draw_with_u(u)), _alias_hints(a)))
@@ -455,7 +499,8 @@ def direct_samplers(res, rng, groups, viol):
 
         # ---- BINARY SEARCH TREE
         try:
-            b = BinarySearchTree(pf, ident)
+            b = BinarySearchTree(guard.arr, ident)
+            guard.check("bst", "constructor")
             arr = [Fr(float(v)) for v in b.bst]
             us = pick(rng, uniforms_around(rng, [float(v) for v in b.bst[:max(K - 1, 0)]], 0), max_break_us) + [rng.randrange(0, 1 << 30) / (1 << 30) for _ in range(n_rand)]
             outs = []
@@ -468,7 +513,8 @@ def direct_samplers(res, rng, groups, viol):
                 res.count(("bst", cls, K, u), nontrivial=K >= 3, kind="BinarySearchTree.sample_with_u")
                 if not (0 <= o < K) or (p[o] == 0 and is_prob):
                     viol("BinarySearchTree returns a zero-probability or out-of-range state", sampler="bst", p=[str(x) for x in p], u=u, got=o)
-            _two_orders(rng, viol, "bst", p, outs, lambda u: int(b.sample_with_u(u)), lambda: (lambda b2: (lambda u: int(b2.sample_with_u(u))))(BinarySearchTree(pf, ident)))
+            _two_orders(rng, viol, "bst", p, outs, lambda u: int(b.sample_with_u(u)), lambda: (lambda b2: (lambda u: int(b2.sample_with_u(u))))(BinarySearchTree(guard.arr, ident)))
+            guard.check("bst", "draws (sample_with_u, second instance)")
             g_bst.append(f"({pl}, {lst([qlit(v) for v in arr])}, {_qpairs(outs)})")
             g_cost.append(f"({pl}, true, {lst([f'({qlit(u)}, {zlit(o)}, {zlit(c)})' for (u, o), c in zip(outs, costs)])})")
             if small:
@@ -478,7 +524,8 @@ def direct_samplers(res, rng, groups, viol):
 
         # ---- HUFFMAN TREE
         try:
-            h = H.HuffmanTree(pf, ident)
+            h = H.HuffmanTree(guard.arr, ident)
+            guard.check("huffman", "constructor")
             pre = _huff_preorder(h.head)
             us = pick(rng, uniforms_around(rng, [float(v) for v in _huff_breaks(h.head)], 0), max_break_us) + [rng.randrange(0, 1 << 30) / (1 << 30) for _ in range(n_rand)]
             outs = []
@@ -491,7 +538,8 @@ def direct_samplers(res, rng, groups, viol):
                 res.count(("huffman", cls, K, u), nontrivial=K >= 3, kind="huffmantree.sample_with_u")
                 if not (0 <= o < K) or (p[o] == 0 and is_prob):
                     viol("HuffmanTree returns a zero-probability or out-of-range state", sampler="huffman", p=[str(x) for x in p], u=u, got=o)
-            _two_orders(rng, viol, "huffman", p, outs, lambda u: int(H.sample_with_u(u, h.head)[0]), lambda: (lambda h2: (lambda u: int(H.sample_with_u(u, h2.head)[0])))(H.HuffmanTree(pf, ident)))
+            _two_orders(rng, viol, "huffman", p, outs, lambda u: int(H.sample_with_u(u, h.head)[0]), lambda: (lambda h2: (lambda u: int(H.sample_with_u(u, h2.head)[0])))(H.HuffmanTree(guard.arr, ident)))
+            guard.check("huffman", "draws (sample_with_u, second instance)")
             pre_l = lst([f"({zlit(s)}, {qlit(v)})" for s, v in pre])
             g_huff.append(f"({pl}, {pre_l}, {_qpairs(outs)})")
             g_cost.append(f"({pl}, false, {lst([f'({qlit(u)}, {zlit(o)}, {zlit(c)})' for (u, o), c in zip(outs, costs)])})")
@@ -504,7 +552,8 @@ def direct_samplers(res, rng, groups, viol):
         #      exact in float (residual sum a power of two); draws are 32-bit words fed through random.getrandbits
         if is_prob:
             try:
-                t = TableMethod(pf, ident)
+                t = TableMethod(guard.arr, ident)
+                guard.check("table", "constructor")
                 Jt = [int(v) for v in t.J]
                 resid = 256 - sum(1 for v in Jt if v >= 0)
                 exact = t.alias_method is None or resid & (resid - 1) == 0
@@ -535,7 +584,8 @@ def direct_samplers(res, rng, groups, viol):
                     if exact or Jt[w & 255] >= 0:
                         draws.append((w, o))
                 _two_orders(rng, viol, "table", p, [(w, o) for w, o in zip(words, got)], lambda w: _table_words(t, [w])[0],
-                            lambda: (lambda t2: (lambda w: _table_words(t2, [w])[0]))(TableMethod(pf, ident)))
+                            lambda: (lambda t2: (lambda w: _table_words(t2, [w])[0]))(TableMethod(guard.arr, ident)))
+                guard.check("table", "draws (sample, second instance)")
                 if t.alias_method is None:
                     al = "None"
                 else:
@@ -554,18 +604,25 @@ def direct_samplers(res, rng, groups, viol):
     groups.append(("table", "list Q * list Z * bool * option (list Z * list Q) * list (Z * Z)", "chk_table", g_table))
 
     # ---- non-dyadic vectors: oracle only
+    guards = []
     for cls, pf in nd_vectors(rng, tier):
         p = [Fr(x) for x in pf]
         res.bump("vector_class", cls)
+        guard = InputGuard(pf, viol, res)
         try:
-            a = AliasMethod(pf, ident)
+            a = AliasMethod(guard.arr, ident)
+            guard.check("alias", "constructor")
             oracle_jobs.append(("alias", cls, p, lambda u, a=a: int(a._draw_with_u(u)), _alias_hints(a)))
-            b = BinarySearchTree(pf, ident)
+            b = BinarySearchTree(guard.arr, ident)
+            guard.check("bst", "constructor")
             oracle_jobs.append(("bst", cls, p, lambda u, b=b: int(b.sample_with_u(u)), [float(v) for v in b.bst]))
-            h = H.HuffmanTree(pf, ident)
+            h = H.HuffmanTree(guard.arr, ident)
+            guard.check("huffman", "constructor")
             oracle_jobs.append(("huffman", cls, p, lambda u, h=h: int(H.sample_with_u(u, h.head)[0]), [float(v) for v in _huff_breaks(h.head)]))
-            t = TableMethod(pf, ident)
+            t = TableMethod(guard.arr, ident)
+            guard.check("table", "constructor")
             oracle_jobs.append(("table", cls, p, t, None))
+            guards.append(guard)
         except Exception as e:  # noqa
             viol(f"sampler constructor raises {type(e).__name__} on a non-dyadic vector", sampler="direct", p=[repr(x) for x in pf], error=str(e)[:200])
 
@@ -598,6 +655,8 @@ def direct_samplers(res, rng, groups, viol):
         bad = [k for k in lengths if not (0 <= k < K) or (p[k] == 0 and (exact_vec or lengths[k] > tol))]
         if bad:
             viol(f"{name}: a zero-probability or out-of-range state has positive length", sampler=name, p=[str(x) for x in p], state=int(bad[0]))
+    for g_ in guards:
+        g_.check("alias/bst/huffman/table", "draws of the law oracle")
 
 
 # ----------------------------------------------------------------------------- chains through the factory
@@ -647,6 +706,32 @@ RIGHT_CLOSED = ("INVERSION", "BINARYSEARCHTREEADAPTED1D", "INVERSION-2d", "BINAR
 
 def _scripted_uniforms(us):
     return lambda low=0.0, high=1.0, size=None: np.array(us[: size], dtype=float) * (high - low) + low
+
+
+class ScriptedChoice:
+    """np.random.choice replaced by an explicit input: returns the element at position `c` of the population (the only
+    random choice of the INVERSION exhaustion path, StatesManager._sample_frontier_state_increment) and counts the calls"""
+
+    def __init__(self):
+        self.c, self.calls, self._orig = 0, 0, None
+
+    def __call__(self, a, *args, **kw):
+        self.calls += 1
+        return list(a)[self.c]
+
+    def __enter__(self):
+        self._orig = np.random.choice
+        np.random.choice = self
+        return self
+
+    def __exit__(self, *exc):
+        np.random.choice = self._orig
+        return False
+
+
+def _draws_lit(rows):
+    """[(u, c, choice called?, state)] -> Coq list (Q * Z * bool * Z)"""
+    return lst([f"({qlit(u)}, {zlit(c)}, {'true' if called else 'false'}, {zlit(int(o))})" for u, c, called, o in rows])
 
 
 def chains(res, rng, groups, viol):
@@ -702,6 +787,7 @@ def chains(res, rng, groups, viol):
                 res.broke("chain intensity", f"intensity {proc.intensity_of_jumps} != {lam} for h={h} L={L} R={R}")
                 continue
             s = proc.sampling
+            axis_ref = grid.axes[0].copy()          # the caller's axis array: no sampler built on the grid may overwrite it
 
             def entry(smp):
                 # single-uniform entry point of the sampler behind the factory (index -> increment through `states`)
@@ -807,19 +893,28 @@ def chains(res, rng, groups, viol):
                             for extra in (1.25, ulp_down(1.0), 1.0625):
                                 seq.insert(rng.randrange(len(seq) + 1), extra)
                         sm2 = s2.state_manager
-                        fr_states = sorted({int(sm2.pairing.project(ix)) for ix in sm2.frontier_states_indices})
-                        outs = []
-                        for u in seq:
-                            o = int(s2.sample_with_u(u))
-                            outs.append(o)
-                            res.count(("inv", h, L, R, tuple(masses), M, order, u, len(outs)), kind="InversionMethod.sample_with_u (sequence)")
-                            if u > 1.0:
-                                res.bump("inversion_exhaustion", "u above the sum")
-                                if o not in fr_states or o == 0 or not (-L <= o <= R):
-                                    viol("InversionMethod: a uniform above the sum of the probabilities does not give a frontier state of the grid",
-                                         sampler=name, u=u, got=o, frontier=fr_states, **ctx0)
-                            else:
-                                check_state(name, o, u)
+                        fr_idx = [int(ix) for ix in sm2.frontier_states_indices]
+                        fr_states = sorted({int(sm2.pairing.project(ix)) for ix in fr_idx})
+                        outs, rows = [], []
+                        with ScriptedChoice() as ch:
+                            for u in seq:
+                                ch.c, before = rng.randrange(len(fr_idx)), ch.calls           # the random choice as an explicit input
+                                o = int(s2.sample_with_u(u))
+                                called = ch.calls > before
+                                outs.append(o)
+                                rows.append((u, ch.c, called, o))
+                                res.count(("inv", h, L, R, tuple(masses), M, order, u, len(outs)), kind="InversionMethod.sample_with_u (sequence)")
+                                if called != (u > 1.0):
+                                    viol("InversionMethod: the frontier draw is (not) taken although the uniform is (not) above the sum of the probabilities",
+                                         sampler=name, u=u, got=o, choice_called=called, **ctx0)
+                                if u > 1.0:
+                                    res.bump("inversion_exhaustion", "u above the sum")
+                                    res.bump("inversion_frontier_choice", ch.c)
+                                    if o != int(sm2.pairing.project(fr_idx[ch.c])) or o == 0 or not (-L <= o <= R):
+                                        viol("InversionMethod: a uniform above the sum of the probabilities does not give the chosen frontier state of the grid",
+                                             sampler=name, u=u, got=o, choice=ch.c, frontier=fr_states, **ctx0)
+                                else:
+                                    check_state(name, o, u)
                         res.bump("inversion_order", order)
                         res.bump("inversion_max_storage", M)
                         # the same uniforms in another order on a fresh sampler: outputs must be a function of u only
@@ -829,9 +924,11 @@ def chains(res, rng, groups, viol):
                         perm = list(range(len(seq)))
                         rng.shuffle(perm)
                         outs3 = {}
-                        for i in perm:
-                            outs3[i] = int(s3.sample_with_u(seq[i]))
-                        diff = [i for i in range(len(seq)) if outs3[i] != outs[i] and seq[i] <= 1.0]
+                        with ScriptedChoice() as ch3:
+                            for i in perm:
+                                ch3.c = rows[i][1]              # the same choice for the same draw: the output is a function of (u, c) only
+                                outs3[i] = int(s3.sample_with_u(seq[i]))
+                        diff = [i for i in range(len(seq)) if outs3[i] != outs[i]]
                         if diff:
                             i = diff[0]
                             viol("InversionMethod: the state returned for a uniform depends on the earlier draws", sampler=name,
@@ -840,7 +937,7 @@ def chains(res, rng, groups, viol):
                         final_cum = lst([qlit(float(c)) for c in s2._cumulative_probabilities])
                         sm = s2.state_manager
                         g_inv.append(f"({lst([qlit(float(x)) for x in grid.axes[0]])}, {zlit(L)}, {zlit(int(sm.max_frontier_indices))}, {_pieces_lit(meas)}, {qlit(lam)}, {zlit(Mz)}, "
-                                     f"{_qpairs(zip(seq, outs))}, {final_cum}, ({zlit(int(sm._last_projected_index))}, {zlit(int(sm._last_logged_index))}), {lst([zlit(v) for v in fr_states])})")
+                                     f"{_draws_lit(rows)}, {final_cum}, ({zlit(int(sm._last_projected_index))}, {zlit(int(sm._last_logged_index))}), {lst([zlit(v) for v in fr_idx])})")
                 # batch sample(size) with a lowered storage against the single-uniform entry point: the batch contains
                 # uniforms beyond the stored cumulative sums, in several orders
                 for M in (1, 2, 3, 5, 20):
@@ -884,9 +981,110 @@ def chains(res, rng, groups, viol):
                          sampler=name, **ctx0)
                 g_ba.append(f"({lst([qlit(float(x)) for x in grid.axes[0]])}, {zlit(L)}, {_pieces_lit(meas)}, {qlit(lam)}, {qlit(h)}, {_qpairs(zip(us2, outs))})")
 
-    groups.append(("inversion", "list Q * Z * Z * list (Q * Q * Q) * Q * Z * list (Q * Z) * list Q * (Z * Z) * list Z", "chk_inversion", g_inv))
+            res.bump("input_array_guard", f"{name} grid axis")
+            if grid.axes[0].tobytes() != axis_ref.tobytes():
+                viol(f"{name} through the factory: the constructor or a draw overwrites the grid's axis array", sampler=name, input_array_mutated=True, **ctx0)
+
+    groups.append(("inversion", "list Q * Z * Z * list (Q * Q * Q) * Q * Z * list (Q * Z * bool * Z) * list Q * (Z * Z) * list Z", "chk_inversion", g_inv))
     groups.append(("bstadapted1d", "list Q * Z * list (Q * Q * Q) * Q * Q * list (Q * Z)", "chk_ba1d", g_ba))
     groups.append(("factoryvec", "list Q * Q * Z * list Q * list Z", "chk_factory_vec", g_vec))
+
+
+# ----------------------------------------------------------------------------- exhaustion / frontier path (exact)
+def inversion_direct(res, rng, groups, viol):
+    """InversionMethod built through its public constructor on a real StatesManager (PairingToZ1d, Domain(Boundary()), CTMCGrid)
+    with a dyadic probability TABLE whose sum is 1 - 2^-k (k = 52, 40, 12, 4: what rounding does to rate/intensity) or exactly 1:
+    every float operation is exact (checked), uniforms in (sum, 1) -- 1 - 2^-53 first -- take the exhaustion path and the
+    frontier draw is scripted (every position of the deque).  Compared exactly with Model/InversionFrontier.v; oracle: the
+    state returned is project(frontier[c]) iff u is above the stored float sum, otherwise a state of positive probability."""
+    from rpylib.distribution import pairing as P
+    from rpylib.distribution.variate.inversion import InversionMethod
+    from rpylib.grid.spatial import CTMCGrid
+    g_dir = []
+    shapes = [(3, 3), (1, 1), (2, 5), (6, 2), (10, 10), (1, 7)] + ([] if res.tier == "quick" else [(23, 12), (4, 4), (40, 40), (9, 1)])
+    for L, R in shapes:
+        for k_def in (52, 40, 12, 4, None):
+            for zero_end in (False, True):
+                n = L + R + 1
+                den = 1 << 12
+                ints = _composition(rng, den, n - 1, zero_frac=rng.choice([0.0, 0.3]))
+                if zero_end:                                   # an end point of the axis (a frontier state) of probability zero
+                    e = rng.choice([0, n - 2])
+                    j = max(range(n - 1), key=lambda t: ints[t])
+                    if j != e:
+                        ints[j] += ints[e]
+                        ints[e] = 0
+                probs = [Fr(v, den) for v in ints]
+                if k_def is not None:
+                    j = max(range(n - 1), key=lambda t: probs[t])
+                    probs[j] -= Fr(1, 1 << k_def)
+                states = [k - L for k in range(n) if k != L]
+                table = dict(zip(states, probs))
+                ftable = {st: float(pr) for st, pr in table.items()}
+                if any(Fr(v) != table[st] for st, v in ftable.items()):
+                    res.bump("inversion_direct_skipped", "entry not a float")
+                    continue
+                axis = np.array([k * 0.25 for k in range(-L, R + 1)], dtype=float)
+                grid = CTMCGrid(h=0.25, origin_coordinate=L, axes=[axis])
+
+                def mk():
+                    pz = P.PairingToZ1d((-L, R), omit_zero=True)
+                    sm_ = P.StatesManager(pairing=pz, domain=P.Domain(boundary=P.Boundary(), grid=grid, pairing=pz), grid=grid)
+                    return InversionMethod(probability_to_jump_to_state=lambda st: ftable[int(st)], state_manager=sm_)
+                s0 = mk()
+                enum = [int(s0.state_manager.pairing.project(x)) for x in range(L + R)]
+                cums, acc, facc, exact = [], Fr(0), 0.0, True
+                for st in enum:
+                    acc += table[st]
+                    facc += ftable[st]
+                    exact = exact and Fr(facc) == acc
+                    cums.append(acc)
+                if not exact:
+                    res.bump("inversion_direct_skipped", "inexact float sum")
+                    continue
+                sigma = float(cums[-1])
+                ctx = dict(sampler="INVERSION-direct", left=L, right=R, table={str(k_): str(v) for k_, v in table.items()}, deficit_log2=k_def)
+                res.bump("inversion_direct_deficit", "none" if k_def is None else f"2^-{k_def}")
+                for M in (1, 2, None) if res.tier == "quick" else (1, 2, 3, 7, None):
+                    s1 = mk()
+                    if M is not None:
+                        s1._max_storage = M
+                    sm1 = s1.state_manager
+                    fr_idx = [int(ix) for ix in sm1.frontier_states_indices]
+                    top = ulp_down(1.0)
+                    above = [top, ulp_down(top)] + [sigma + (1.0 - sigma) * rng.randrange(1, 1 << 8) / (1 << 8) for _ in range(2)] + [1.0, 1.25]
+                    above = [u for u in above if u > sigma]
+                    brk = pick(rng, uniforms_around(rng, [float(c_) for c_ in cums], 0), 10)
+                    seq = [(u, c) for u in above for c in range(len(fr_idx))] + [(u, rng.randrange(len(fr_idx))) for u in brk]
+                    seq += [(rng.randrange(0, 1 << 30) / (1 << 30), 0) for _ in range(4)]
+                    rng.shuffle(seq)
+                    rows = []
+                    with ScriptedChoice() as ch:
+                        for u, c in seq:
+                            ch.c, before = c, ch.calls
+                            o = int(s1.sample_with_u(u))
+                            called = ch.calls > before
+                            rows.append((u, c, called, o))
+                            res.count(("inv-direct", L, R, tuple(ints), k_def, M, u, c, len(rows)), kind="InversionMethod.sample_with_u (direct, frontier draw scripted)")
+                            if called != (u > sigma):
+                                viol("InversionMethod: the frontier draw is taken iff the uniform exceeds the sum of the probabilities -- not so",
+                                     u=u, got=o, choice_called=called, float_sum=sigma, max_storage=M, **ctx)
+                            elif called:
+                                res.bump("inversion_direct_frontier", "u = 1 - 2^-53" if u == top else "u in (sum, 1)" if u < 1.0 else "u >= 1")
+                                want = int(sm1.pairing.project(fr_idx[c]))
+                                if o != want or o == 0 or not (-L <= o <= R):
+                                    viol("InversionMethod: on exhaustion the state returned is not the chosen frontier state of the grid",
+                                         u=u, got=o, choice=c, want=want, max_storage=M, **ctx)
+                                if table[o] == 0:
+                                    res.bump("inversion_direct_frontier", "frontier state of probability zero returned (deficient table)")
+                            elif u > 0.0 and (o == 0 or not (-L <= o <= R) or table[o] == 0):
+                                viol("InversionMethod (direct): origin / out-of-grid / zero-probability state for a uniform below the sum",
+                                     u=u, got=o, max_storage=M, **ctx)
+                    Mz = 1_000_000 if M is None else M
+                    tab_lit = lst([f"({zlit(st)}, {qlit(ftable[st])})" for st in states])
+                    g_dir.append(f"({zlit(L)}, {zlit(R)}, {tab_lit}, {zlit(Mz)}, {_draws_lit(rows)}, {lst([qlit(float(c_)) for c_ in s1._cumulative_probabilities])}, "
+                                 f"({zlit(int(sm1._last_projected_index))}, {zlit(int(sm1._last_logged_index))}), {lst([zlit(v) for v in fr_idx])})")
+    groups.append(("inversion_direct", "Z * Z * list (Z * Q) * Z * list (Q * Z * bool * Z) * list Q * (Z * Z) * list Z", "chk_inv_direct", g_dir))
 
 
 # ----------------------------------------------------------------------------- probability-step grid (oracle only)
@@ -947,11 +1145,23 @@ def chain_float_sum(res, rng, viol):
     from rpylib.distribution.sampling import SamplingMethod as SM
     from rpylib.distribution.variate import huffmantree as H
     below = 0
-    for trial in range(12 if res.tier == "quick" else 60):
-        L, R = rng.choice([(2, 2), (3, 5), (6, 2), (10, 10)])
+    for trial in range(-1, 12 if res.tier == "quick" else 60):
+        if trial < 0:
+            # fixed witness of F-C02-13: intensity 7, float sum 0.9999999999999998, the left end state -3 has probability zero
+            L, R = 3, 3
+            masses = [Fr(0), Fr(1), Fr(1), Fr(0), Fr(1, 4), Fr(17, 4), Fr(1, 2)]
+        else:
+            L, R = rng.choice([(2, 2), (3, 5), (6, 2), (10, 10)])
+            lam_int = rng.choice([3, 3, 5, 7])
+            ints = _composition(rng, lam_int * (1 << 8), L + R, zero_frac=rng.choice([0.0, 0.3]))
+            if rng.random() < 0.4:
+                e = rng.choice([0, L + R - 1])              # an end point of the axis (a frontier state of INVERSION) without mass
+                j = max(range(L + R), key=lambda t: ints[t])
+                if j != e:
+                    ints[j] += ints[e]
+                    ints[e] = 0
+            masses = [Fr(v, 1 << 8) for v in ints[:L] + [0] + ints[L:]]          # total intensity 3, 5 or 7
         n = L + R + 1
-        ints = _composition(rng, 3 * (1 << 8), n - 1, zero_frac=rng.choice([0.0, 0.3]))
-        masses = [Fr(v, 1 << 8) for v in ints[:L] + [0] + ints[L:]]          # total intensity 3
         ctx = dict(h=0.25, left=L, right=R, masses=[str(m) for m in masses])
         for method in (SM.INVERSION, SM.ALIAS, SM.BINARYSEARCHTREE, SM.HUFFMANNTREE, SM.BINARYSEARCHTREEADAPTED1D):
             name = method.name
@@ -968,13 +1178,16 @@ def chain_float_sum(res, rng, viol):
                 elif name == "HUFFMANNTREE":
                     o = int(s.states(H.sample_with_u(u, s.head)[0]))
                 else:
-                    o = int(s.sample_with_u(u))
+                    with ScriptedChoice() as ch0:          # INVERSION: position 0 of the frontier deque (all positions: below)
+                        o = int(s.sample_with_u(u))
             except Exception as e:  # noqa
                 viol(f"{name}: the uniform 1 - 2^-53 raises {type(e).__name__}", sampler=name, u=u, error=str(e)[:200], **ctx)
                 continue
             res.count(("float-sum", name, L, R, tuple(masses)), kind=f"{name} at 1 - 2^-53 (rounded probabilities)")
             target_o = masses[o + L] if -L <= o <= R else None
-            if o == 0 or not (-L <= o <= R) or target_o == 0:
+            if name == "INVERSION" and ch0.calls and target_o == 0 and o != 0:
+                pass                                       # the frontier draw: reported below as F-C02-13 with the choice in the replay
+            elif o == 0 or not (-L <= o <= R) or target_o == 0:
                 extra = {}
                 if name in ("BINARYSEARCHTREE", "HUFFMANNTREE"):
                     # the catch-all leaf: the last leaf in in-order receives every uniform at or above the float sum of the vector
@@ -999,12 +1212,37 @@ def chain_float_sum(res, rng, viol):
             if name == "INVERSION":
                 top = float(s._cumulative_probabilities[-1])
                 sm = s.state_manager
-                fr = {int(sm.pairing.project(ix)) for ix in sm.frontier_states_indices}
+                fr_idx = [int(ix) for ix in sm.frontier_states_indices]
+                fr = {int(sm.pairing.project(ix)) for ix in fr_idx}
                 if top < u:
                     below += 1
                     if o not in fr:
                         viol("InversionMethod: a uniform above the float sum of the probabilities does not give a frontier state",
                              sampler=name, u=u, float_sum=top, got=o, frontier=sorted(fr), **ctx)
+                # the frontier draw with the random choice as an explicit input: every position of the deque, on a fresh sampler
+                # and on the warm one (Model/InversionFrontier.v; C02_inversion_frontier_law: taken iff u exceeds the float sum)
+                for c in range(len(fr_idx)):
+                    for smp in (build_chain(0.25, L, masses, method, right=R)[0].sampling, s):
+                        with ScriptedChoice() as ch:
+                            ch.c = c
+                            oc = int(smp.sample_with_u(u))
+                        res.count(("float-sum-frontier", L, R, tuple(masses), c, smp is s), kind="INVERSION at 1 - 2^-53, frontier choice scripted")
+                        if (ch.calls == 1) != (top < u) or ch.calls > 1:
+                            viol("InversionMethod: the frontier draw is taken iff the uniform exceeds the float sum of the probabilities -- not so",
+                                 sampler=name, u=u, float_sum=top, got=oc, choice_calls=ch.calls, **ctx)
+                            continue
+                        if not ch.calls:
+                            continue
+                        res.bump("float_sum_frontier_choice", c)
+                        want = int(sm.pairing.project(fr_idx[c]))
+                        if oc != want or oc == 0 or not (-L <= oc <= R):
+                            viol("InversionMethod: on exhaustion the state returned is not the chosen frontier state of the grid",
+                                 sampler=name, u=u, float_sum=top, got=oc, choice=c, want=want, **ctx)
+                        elif masses[oc + L] == 0 and smp is not s:
+                            viol("InversionMethod: a uniform in (float sum of the probabilities, 1) is sent by the frontier draw to a state of probability zero",
+                                 finding="F-C02-13", sampler=name, u=u, float_sum=top, got=oc, choice=c, frontier_indices=fr_idx,
+                                 frontier_states=[int(sm.pairing.project(ix)) for ix in fr_idx], probability_of_got=str(masses[oc + L]),
+                                 intensity=float(proc.intensity_of_jumps), **ctx)
     res.bump("float_sum_below_largest_uniform", below)
 
 
@@ -1520,7 +1758,7 @@ def chain_nd_wide(res, rng, viol):
 HEADER = r"""
 From Coq Require Import List ZArith QArith Qabs Bool.
 From RV Require Import Proofs.C02_Alias.
-From RV Require Import Base.QB Base.Corr Gen.GenPairing Model.Pairing Model.StepLaw Model.Bst Model.Alias Model.Huffman Model.Table Model.StatesManager Model.Inversion Model.BstAdapted Model.Factory Model.BstAdaptedNd Model.Stateful.
+From RV Require Import Base.QB Base.Corr Gen.GenPairing Model.Pairing Model.StepLaw Model.Bst Model.Alias Model.Huffman Model.Table Model.StatesManager Model.Inversion Model.BstAdapted Model.Factory Model.BstAdaptedNd Model.Stateful Model.Domain Model.InversionFrontier.
 Import ListNotations.
 Open Scope Q_scope.
 
@@ -1591,26 +1829,47 @@ Definition cell_prob (axis : list Q) (o : Z) (pieces : list (Q * Q * Q)) (lam : 
 
 Definition iout_z (o : @iout Z) : Z := match o with Out s => s | Frontier => 999999%Z | NoOut => 888888%Z end.
 
-Definition chk_inversion (c : list Q * Z * Z * list (Q * Q * Q) * Q * Z * list (Q * Z) * list Q * (Z * Z) * list Z) : bool :=
-  let '(axis, o, F, pieces, lam, M, draws, final_cum, final_sm, fr) := c in     (* F = max_frontier_indices, fr = frontier states *)
+(* one history of (u, c, choice called?, state) against Model/InversionFrontier.v: inv_step_f resolves the exhaustion path with
+   the scripted position c of np.random.choice in the deque fr; inv_uses_choice = whether np.random.choice was called *)
+Definition run_inv_f {S : Type} (eqb : S -> S -> bool) (proj : Z -> S) (outside : S -> bool) (F : Z) (prob : S -> Q) (M : Z) (fr : list Z) :=
+  fix go (st : @ist S) (l : list (Q * Z * bool * S)) : bool * @ist S :=
+    match l with
+    | [] => (true, st)
+    | (u, c, called, want) :: r =>
+        let so := inv_step_f proj outside F prob M fr st u (Z.to_nat c) in
+        if option_eqb eqb (snd so) (Some want) && Bool.eqb (inv_uses_choice proj outside F prob M st u) called
+           && (0 <=? c)%Z && (c <? Z.of_nat (length fr))%Z
+        then go (fst so) r else (false, fst so)
+    end.
+
+Definition chk_inversion (c : list Q * Z * Z * list (Q * Q * Q) * Q * Z * list (Q * Z * bool * Z) * list Q * (Z * Z) * list Z) : bool :=
+  let '(axis, o, F, pieces, lam, M, draws, final_cum, final_sm, fr) := c in     (* F = max_frontier_indices, fr = frontier_states_indices *)
   let L := o in let R := (Z.of_nat (length axis) - o - 1)%Z in
   let proj := z1d_project (- L) R 1 in
   let prob := cell_prob axis o pieces lam in
-  let outside := fun s : Z => negb ((- L <=? s) && (s <=? R))%Z in      (* StatesManager.is_outside: outside the grid *)
-  match inv_init proj outside F prob with
+  (* the deque and max_frontier_indices are those of Model/Domain.v (dom_1d / dom_maxf), is_outside = outside the grid *)
+  zlist_eqb fr (fr1d L R) && Z.eqb F (maxf1d L R) &&
+  match inv_init proj (outside1d L R) F prob with
   | None => false
   | Some st0 =>
-      let fix go (st : @ist Z) (l : list (Q * Z)) : bool * @ist Z :=
-        match l with
-        | [] => (true, st)
-        | (u, want) :: r =>
-            let so := inv_step proj outside F prob M st u in
-            (* exhaustion: the code returns a frontier state drawn at random; accepted iff it is one of the frontier states *)
-            if (match snd so with Frontier => existsb (Z.eqb want) fr | o' => Z.eqb (iout_z o') want end)
-            then go (fst so) r else (false, fst so)
-        end in
-      let '(ok, st) := go st0 draws in
+      let '(ok, st) := run_inv_f Z.eqb proj (outside1d L R) F prob M fr st0 draws in
       ok && qlist_eqb (i_cum st) final_cum && zpair_eqb (i_sm st) final_sm      (* (_last_projected_index, _last_logged_index) *)
+  end.
+
+(* InversionMethod built DIRECTLY (public constructor) on a real StatesManager with a probability table given as data:
+   tables whose sum is below 1 by 2^-52 .. 2^-4 (what rounding does to rate/intensity) drive the frontier draw with
+   uniforms in (sum, 1), e.g. 1 - 2^-53 *)
+Fixpoint lookup1 (t : list (Z * Q)) (s : Z) : Q :=
+  match t with [] => 0 | (a, q) :: r => if Z.eqb a s then q else lookup1 r s end.
+Definition chk_inv_direct (c : Z * Z * list (Z * Q) * Z * list (Q * Z * bool * Z) * list Q * (Z * Z) * list Z) : bool :=
+  let '(L, R, tab, M, draws, final_cum, final_sm, fr) := c in
+  let proj := z1d_project (- L) R 1 in
+  zlist_eqb fr (fr1d L R) &&
+  match inv_init proj (outside1d L R) (maxf1d L R) (lookup1 tab) with
+  | None => false
+  | Some st0 =>
+      let '(ok, st) := run_inv_f Z.eqb proj (outside1d L R) (maxf1d L R) (lookup1 tab) M fr st0 draws in
+      ok && qlist_eqb (i_cum st) final_cum && zpair_eqb (i_sm st) final_sm
   end.
 
 Definition in_box (L R : Z) (s : Z * Z) : bool :=
@@ -1667,6 +1926,7 @@ def correspond(res):
 
     direct_samplers(res, rng, groups, viol)
     chains(res, rng, groups, viol)
+    inversion_direct(res, rng, groups, viol)
     chain_probability_step(res, rng, viol)
     chain_float_sum(res, rng, viol)
     chain_2d(res, rng, groups, viol)
@@ -1721,6 +1981,20 @@ def matches_known(v, known):
         first = r.get("first_enumerated_state")
         return (r.get("sampler") in RIGHT_CLOSED and r.get("u") == 0.0 and first is not None and got == first
                 and r.get("probability_of_got") == "0")
+    if known["id"] == "F-C02-13":
+        # only INVERSION through the factory on ROUNDED probabilities (intensity not a power of two), only a uniform in
+        # (float sum, 1), only the frontier state at the recorded position of the deque (what Model/InversionFrontier.v and
+        # C02_inversion_frontier_law predict), only if that state has probability zero and is in the grid and not the origin
+        lam = r.get("intensity")
+        if not isinstance(lam, float) or lam <= 0:
+            return False
+        fr = Fr(lam)
+        rounded = not (fr.numerator & (fr.numerator - 1) == 0 and fr.denominator & (fr.denominator - 1) == 0)
+        c, frs = r.get("choice"), r.get("frontier_states")
+        return (r.get("sampler") == "INVERSION" and rounded and isinstance(r.get("float_sum"), float) and isinstance(r.get("u"), float)
+                and r["float_sum"] < r["u"] < 1.0 and isinstance(frs, list) and isinstance(c, int) and 0 <= c < len(frs)
+                and r.get("got") == frs[c] and r.get("got") != 0 and -r.get("left", 0) <= r.get("got") <= r.get("right", 0)
+                and r.get("probability_of_got") == "0")
     if known["id"] == "F-C02-8":
         # only BST / Huffman built on ROUNDED probabilities (intensity not a power of two), only a uniform at or above the float
         # sum of the vector, only the last leaf in in-order (the catch-all of the descent), only if that leaf is the origin
@@ -1762,6 +2036,24 @@ def replay(path):
     print(json.dumps({k: v for k, v in data.items() if k != "sequence"}, indent=1)[:3000])
     what, name = data.get("what", ""), data.get("sampler", "")
     try:
+        if data.get("input_array_mutated") and name in ("alias", "bst", "huffman", "table"):
+            from rpylib.distribution.variate.alias import AliasMethod
+            from rpylib.distribution.variate.binarysearchtree import BinarySearchTree
+            from rpylib.distribution.variate import huffmantree as H
+            from rpylib.distribution.variate.table import TableMethod
+            arr = np.array([float(x) for x in data["p"]], dtype=np.float64)
+            ref, rc = arr.copy(), 0
+            for nm, mk_ in (("alias", lambda: AliasMethod(arr, ident)._draw_with_u(0.3)), ("bst", lambda: BinarySearchTree(arr, ident).sample_with_u(0.3)),
+                            ("huffman", lambda: H.sample_with_u(0.3, H.HuffmanTree(arr, ident).head)), ("table", lambda: TableMethod(arr, ident).sample(size=2))):
+                try:
+                    mk_()
+                except Exception as e:  # noqa
+                    print("replay:", nm, "raises", type(e).__name__)
+                changed = arr.tobytes() != ref.tobytes()
+                print("replay:", nm, "constructor + draw on the shared float64 array -> array", "CHANGED" if changed else "unchanged")
+                rc |= int(changed)
+                arr[...] = ref
+            return rc
         if name in ("alias", "bst", "huffman", "table"):
             p = [Fr(x) if "/" in x or x.isdigit() else Fr(float(x)) for x in data["p"]]
             f, hints, obj = _direct(name, p)
@@ -1804,9 +2096,19 @@ def replay(path):
             o = ent(mk())(data["u"])
             print("replay: state for u =", data["u"], "->", o)
             return 1 if list(o) == data.get("got") else 0
+        if data.get("finding") == "F-C02-13" or (name == "INVERSION" and "choice" in data and "left" in data):
+            masses = [Fr(x) for x in data["masses"]]
+            s = build_chain(data["h"], data["left"], masses, SM.INVERSION, right=data["right"])[0].sampling
+            with ScriptedChoice() as ch:
+                ch.c = data["choice"]
+                o = int(s.sample_with_u(data["u"]))
+            pr = masses[o + data["left"]] if -data["left"] <= o <= data["right"] else None
+            print("replay: float sum", float(s._cumulative_probabilities[-1]), "u =", data["u"], "np.random.choice called:", ch.calls,
+                  "position", data["choice"], "-> state", o, "probability", pr)
+            return 1 if ch.calls and (pr is None or pr == 0 or o == 0) else 0
         if name in SM.__members__:
             masses = [Fr(x) for x in data["masses"]]
-            proc, grid, meas = build_chain(data["h"], data["half"], masses, SM[name])
+            proc, grid, meas = build_chain(data["h"], data.get("half", data.get("left")), masses, SM[name], right=data.get("right"))
             s = proc.sampling
             if "u" in data and name in ("INVERSION", "BINARYSEARCHTREEADAPTED1D", "BINARYSEARCHTREE"):
                 o = int(s.sample_with_u(data["u"]))
